@@ -8,7 +8,10 @@
 #define CNL_IMPL_WIDE_INTEGER_GENERIC_H
 
 #include "../custom_operator/definition.h"
+#include "../num_traits/rep_of.h"
 #include "../num_traits/to_rep.h"
+#include "../numbers/set_signedness.h"
+#include "../numbers/signedness.h"
 #include "definition.h"
 
 #include <type_traits>
@@ -29,7 +32,15 @@ namespace cnl {
                 wide_integer<LhsDigits, LhsNarrowest> const& lhs,
                 wide_integer<RhsDigits, RhsNarrowest> const& rhs) const
         {
-            return Operator()(_impl::to_rep(lhs), _impl::to_rep(rhs));
+            using common = wide_integer<
+                    (LhsDigits > RhsDigits) ? LhsDigits : RhsDigits,
+                    numbers::set_signedness_t<
+                            std::common_type_t<LhsNarrowest, RhsNarrowest>,
+                            numbers::signedness_v<LhsNarrowest> || numbers::signedness_v<RhsNarrowest>>>;
+            using common_rep = _impl::rep_of_t<common>;
+            return Operator()(
+                    static_cast<common_rep>(_impl::to_rep(lhs)),
+                    static_cast<common_rep>(_impl::to_rep(rhs)));
         }
     };
 }
